@@ -65,6 +65,10 @@ func main() {
 		fmt.Fprintln(os.Stderr, "usage: siot-diff gen|replay <prop> [-seed N] [-n K] [-tier quick|thorough]")
 		os.Exit(2)
 	}
+	if os.Args[1] == "c04-writer" && len(os.Args) >= 4 { // child process of a C04 case
+		c04Writer(os.Args[2], os.Args[3])
+		return
+	}
 	mode, id := os.Args[1], os.Args[2]
 	fs := flag.NewFlagSet("siot-diff", flag.ExitOnError)
 	seed := fs.Int64("seed", 1, "PRNG seed")
